@@ -25,6 +25,9 @@ def run(ctx):
     c_identity(ctx, t, fn)
     c_internal_name(ctx, t)
     c_class_agreement(ctx, t)
+    a_no_exempt_keys(ctx, fn)
+    c_startflow_keeps_score(ctx, t)
+    b_flow_reference_args(ctx, t)
     a_list_scan(ctx, fn)
     d_priority(ctx, t)
 
@@ -184,13 +187,44 @@ def b_dispatch(ctx, fn):
               "expression functions produce exactly the pattern object kinds the matcher dispatches on: %s" % sorted(produced))
 
 
+def _positive_const(v):
+    if isinstance(v, ast.Constant) and isinstance(v.value, (int, float)) and 0 < v.value <= 1:
+        return True
+    return re.sub(r"\s", "", src(v)) in ("sys.float_info.min", "sys.float_info.epsilon", "float_info.min")
+
+
+def _range_ok(v):
+    """value set of a returned expression is within {-1.0} u [0, 1]"""
+    if isinstance(v, ast.Constant) and v.value in (0.0, -1.0, 1.0):
+        return True
+    if isinstance(v, ast.Name) and v.id == "score":
+        return True
+    if isinstance(v, ast.Call) and isinstance(v.func, ast.Attribute) and v.func.attr == "compare":
+        return True
+    if isinstance(v, ast.Call) and src(v.func) == "float" and len(v.args) == 1:
+        return _range_ok(v.args[0])
+    if isinstance(v, ast.Call) and src(v.func) == "max" and len(v.args) == 2:
+        a, b = v.args
+        return (_range_ok(a) and _positive_const(b)) or (_range_ok(b) and _positive_const(a))
+    return False
+
+
 def d_range(ctx, fn):
     ok, bad = True, None
-    for r in [n for n in walk_no_nested(fn) if isinstance(n, ast.Return)]:
+    rets = [n for n in walk_no_nested(fn) if isinstance(n, ast.Return)]
+    for r in rets:
         v = r.value
-        good = (isinstance(v, ast.Constant) and v.value in (0.0, -1.0)) or (isinstance(v, ast.Name) and v.id == "score") or \
-               (isinstance(v, ast.Call) and isinstance(v.func, ast.Attribute) and v.func.attr == "compare")
-        ctx.check("C04.d.range", SM, fn.name, src(r), good, "return value is 0.0, the accumulated score, or compare(...)", line=r.lineno)
+        good = _range_ok(v)
+        ctx.check("C04.d.range", SM, fn.name, src(r), good, "return value is 0.0, the accumulated score (possibly floored), or the result of compare(...)", line=r.lineno)
+    # "0.0" means no match: the value returned for a MATCH (the accumulated product of up to thousands of 0.9 factors) needs a positive floor
+    succ = [r for r in rets if any(isinstance(x, ast.Name) and x.id == "score" for x in ast.walk(r.value))]
+    for r in succ:
+        v = r.value
+        floored = isinstance(v, ast.Call) and src(v.func) == "max" and any(_positive_const(a) for a in v.args)
+        ctx.check("C04.d.range", SM, fn.name, "positive floor on the match result", floored,
+                  "the score returned for a match has a positive floor: the product of many fuzzy factors cannot underflow to 0.0 (= no match)" if floored else
+                  "`%s`: each unmentioned element multiplies the score by 0.9, so with ~7100 extra elements the product underflows to exactly 0.0 and a matching event is treated as not matching" % src(r),
+                  line=r.lineno)
     inits = [n for n in walk_no_nested(fn) if isinstance(n, ast.Assign) and any(isinstance(t, ast.Name) and t.id == "score" for t in n.targets)]
     augs = [n for n in walk_no_nested(fn) if isinstance(n, ast.AugAssign) and isinstance(n.target, ast.Name) and n.target.id == "score"]
     ctx.check("C04.d.range", SM, fn.name, "score initialisation", len(inits) == 1 and isinstance(inits[0].value, ast.Constant) and inits[0].value.value == 1.0,
@@ -214,9 +248,25 @@ def e_primitives(ctx, fn):
                   line=ifn.lineno)
     if "ComparisonExpression" in br:
         ifn, body = br["ComparisonExpression"]
-        ok = len(body) == 1 and isinstance(body[0], ast.Return) and isinstance(body[0].value, ast.Call) and src(body[0].value.func).endswith(".compare") \
-            and [src(a) for a in body[0].value.args] == [args]
+        calls = [c for st in body for c in ast.walk(st) if isinstance(c, ast.Call) and isinstance(c.func, ast.Attribute) and c.func.attr == "compare"]
+        ok = len(calls) == 1 and [src(a) for a in calls[0].args] == [args] and all(isinstance(st, (ast.Return, ast.Try)) for st in body)
         ctx.check("C04.e.comparison", SM, fn.name, "comparison primitive", ok, "a ComparisonExpression delegates to its compare(value)", line=ifn.lineno)
+        # compare() raises for values it cannot compare; the matcher must turn that into "no match"
+        ev = ctx.tree.ast("nemoguardrails/colang/v2_x/runtime/eval.py")
+        cmpf = find_function(ev, "compare", "ComparisonExpression")
+        raises = cmpf is not None and any(isinstance(x, ast.Raise) for x in ast.walk(cmpf))
+        if calls and raises:
+            c = calls[0]
+            covered = False
+            p = getattr(c, "_parent", None)
+            while p is not None and p is not fn:
+                if isinstance(p, ast.Try) and any(c is x for st in p.body for x in ast.walk(st)):
+                    covered = any(any(isinstance(r, ast.Return) and isinstance(r.value, ast.Constant) and r.value.value == 0.0 for r in ast.walk(h)) for h in p.handlers)
+                p = getattr(p, "_parent", None)
+            ctx.check("C04.e.comparison", SM, fn.name, "comparison is total", covered,
+                      "compare() raises for values of another type; the matcher catches that and reports no match (0.0)" if covered else
+                      "compare() raises ColangValueError for a value of another type and the matcher calls it unguarded: an event like Reading(value=\"n/a\") against `less_than(5)` raises out of "
+                      "run_to_completion and NO flow processes the event", line=c.lineno)
 
 
 def c_identity(ctx, t, argfn):
@@ -439,3 +489,72 @@ def d_priority(ctx, t):
                   "the score is multiplied by the priority only when the priority is non-zero (guard `%s`)" % (src(par.test) if isinstance(par, ast.If) else None) if ok else
                   "the score is multiplied by the priority under `%s`: a flow with the allowed priority 0.0 gets score 0 for every event and its match never advances" % (src(par.test) if isinstance(par, ast.If) else "no guard"),
                   line=m.lineno)
+
+
+def a_no_exempt_keys(ctx, fn):
+    """`every parameter written in the statement is matched`: the dict rule may not exempt a key of the EXPECTED dict from comparison."""
+    br = branches(fn)
+    if "dict" not in br:
+        raise AnalysisError("dict branch of the argument matcher not found", anchor=SM + "::" + fn.name + "::dict")
+    ref = fn.args.args[1].arg
+    loops = [l for l in ast.walk(fn) if isinstance(l, ast.For) and any(isinstance(x, ast.Name) and x.id == ref for x in ast.walk(l.iter))]
+    n = 0
+    for l in loops:
+        n += 1
+        skips = [i for i in ast.walk(l) if isinstance(i, ast.If) and any(isinstance(x, ast.Continue) for x in i.body) and isinstance(i.test, ast.Compare)
+                 and isinstance(i.test.ops[0], ast.In)]
+        ok = not skips
+        ctx.check("C04.a.no-exempt-keys", SM, fn.name, first_line(skips[0].test, 60) if skips else "for %s in %s" % (src(l.target), src(l.iter)), ok,
+                  "every key of the expected dict is compared" if ok else
+                  "keys in `%s` are skipped at every depth and for every event: a WRITTEN parameter with such a name (e.g. `match $check.Finished(return_value=\"allowed\")`) is never compared and the "
+                  "statement advances on any value" % src(skips[0].test.comparators[0]), line=(skips[0].lineno if skips else l.lineno))
+    ctx.floor("C04.a.no-exempt-keys", SM, "loops over the expected container", n, 2)
+
+
+def c_startflow_keeps_score(ctx, t):
+    """StartFlow events: the score computed from ALL written parameters may be rescaled, but not replaced by a comparison of the flow ids alone."""
+    fn = find_function(t, "_compute_event_comparison_score")
+    target = None
+    for i in [x for x in ast.walk(fn) if isinstance(x, ast.If)]:
+        if "START_FLOW" in src(i.test) and "InternalEvents.ALL" not in src(i.test):
+            target = i
+            break
+    if target is None:
+        raise AnalysisError("StartFlow branch of _compute_event_comparison_score not found", anchor=SM + "::_compute_event_comparison_score::START_FLOW")
+    assigns = [a for st in target.body for a in ast.walk(st) if isinstance(a, ast.Assign) and src(a.targets[0]) == "match_score"]
+    first = assigns[0] if assigns else None
+    ok0 = first is not None and isinstance(first.value, ast.Call) and "_compute_arguments_dict_matching_score" in src(first.value.func)
+    ctx.check("C04.c.startflow", SM, fn.name, "arguments scored", ok0, "the StartFlow branch scores all written parameters", line=target.lineno)
+    for a in assigns[1:]:
+        keeps = any(isinstance(x, ast.Name) and x.id == "match_score" for x in ast.walk(a.value))
+        ctx.check("C04.c.startflow", SM, fn.name, first_line(a, 70), keeps,
+                  "the later assignment derives the score from the computed one" if keeps else
+                  "the score computed from all written parameters is REPLACED by `%s`: `match StartFlow(flow_id=\"a\", x=5)` advances on StartFlow(flow_id=\"a\", x=6)" % src(a.value)[:70], line=a.lineno)
+
+
+def b_flow_reference_args(ctx, t):
+    """`Parameters the statement does not mention never prevent a match`: the reference event for `match (flow ...).Finished()` is produced by a temporary
+    instance of the flow; the defaults/None of all its DECLARED parameters must not become expected arguments."""
+    fn = find_function(t, "get_event_from_element")
+    if fn is None:
+        raise AnalysisError("get_event_from_element not found", anchor=SM + "::get_event_from_element")
+    temps = [a for a in ast.walk(fn) if isinstance(a, ast.Assign) and isinstance(a.value, ast.Call) and src(a.value.func) == "create_flow_instance" and isinstance(a.targets[0], ast.Name)]
+    ctx.floor("C04.b.flow-reference-args", SM, "temporary flow instances that produce reference events", len(temps), 1)
+    for a in temps:
+        tv = a.targets[0].id
+        blk = None
+        p = getattr(a, "_parent", None)
+        for f in ("body", "orelse"):
+            if isinstance(getattr(p, f, None), list) and a in getattr(p, f):
+                blk = getattr(p, f)
+        uses = [c for st in (blk or []) for c in ast.walk(st) if isinstance(c, ast.Call) and src(c.func) == "%s.get_event" % tv]
+        if not uses:
+            continue
+        clears = [x for st in (blk or []) for x in ast.walk(st) if isinstance(x, ast.Assign) and src(x.targets[0]) == "%s.arguments" % tv
+                  and ((isinstance(x.value, ast.Dict) and not x.value.keys) or src(x.value) == "dict()") and x.lineno < uses[0].lineno]
+        # an event_arguments={} creation gives every declared parameter its default / None
+        ok = bool(clears)
+        ctx.check("C04.b.flow-reference-args", SM, fn.name, first_line(a, 70), ok,
+                  "the temporary instance's declared-parameter defaults are dropped before the reference event for a `match` is built" if ok else
+                  "the reference event is built from a temporary instance created with no arguments: every DECLARED parameter appears in it with its default (or None), "
+                  "so `match (user said \"hi\").Finished()` can never match a flow that has further parameters", line=a.lineno)
